@@ -90,7 +90,7 @@ def run(ctx):
     binp = build_binary(ctx)
     try:
         pre = ctx.path("banner")
-        args = ["banner", "-out", pre, "-bin", binp]
+        args = ["banner", "-out", pre, "-bin", binp, "-seed", str(ctx.seed), "-tier", ctx.tier]
         if code_flags().get("banner_uri_masked"):
             args.append("-uri-masked")
         out, dt = vf.run_driver(args, timeout=1500)
@@ -109,12 +109,46 @@ def run(ctx):
             ctx.violation("c18-banner-missing", "the start-up banner was not produced (cannot be scanned)", d)
         for s in d["leaked"] or []:
             ctx.violation("c18-banner-leaks-" + s, "the start-up output contains the configured %s (supplied by %s, provider %s)" % (s, d["channel"], d["provider"]), d)
+    # (d) redis.uri: spellings of the embedded password. Correspondence: the printed Redis.URI field, byte for byte, against
+    # Model/Logs.v:banner_uri_field (redactURIPassword over the net/url model). Monitor (property text: "the Redis password
+    # ... embedded in the Redis URI" must not be in any log line): the whole output is scanned for the password as written
+    # in the URI, decoded, and for each of its two distinctive halves.
+    ctx.correspondence("banner: redis.uri field of the built binary for a sweep of password spellings (flag / env) vs Model/Logs.v banner_uri_field",
+                       pre + "-uri.in", pre + "-uri.impl")
+    nu, spellings, not_userinfo = 0, set(), []
+    for line in open(pre + "-uri.obs"):
+        d = json.loads(line)
+        nu += 1
+        spellings.add((d["spelling"], d["printed_uri_field"]))
+        if not d["banner_seen"]:
+            ctx.violation("c18-banner-missing", "the start-up banner was not produced (cannot be scanned)", d)
+        if not d["found"]:
+            continue
+        if not d["userinfo_by_syntax"]:
+            # no "//" (opaque URI) or digits before a literal slash (host:port/path): by URI syntax, for net/url and for the Redis
+            # client the value has no userinfo, hence no password; listed, not judged
+            not_userinfo.append({"redis_uri": d["redis_uri"], "printed": d["printed_uri_field"], "found": d["found"]})
+            continue
+        forms = [f for f in d["found"] if not f.endswith("half")] or ["part"]
+        ctx.violation("c18-banner-leaks-redis-uri-password:" + "+".join(f.split()[0] + ("-" + f.split()[1] if f.startswith("as") else "") for f in forms),
+                      "the start-up output contains the password embedded in redis.uri (%s; spelling: %s; supplied by %s): found %s"
+                      % (d["redis_uri"], d["spelling"], d["channel"], ", ".join(d["found"])), d)
+    ctx.extra["redis_uri_spellings_started"] = nu
+    ctx.extra["redis_uri_text_that_is_no_userinfo_by_syntax_printed_verbatim"] = not_userinfo[:4]
+    nb += len(spellings)
     ctx.nontrivial += len(all_msgs) + nb
     ctx.samples += [{"message": m} for m in sorted(all_msgs)[:5]]
     ctx.extra["log_sites_in_source"] = len(sites_info["sites"])
     ctx.rule = ("every log entry (debug level, logrus hook) produced by the real stack in session-machine histories, fault sequences and schedules and in the login / callback "
                 "cross products is scanned for every secret the harness minted or configured (tokens, verifiers, cookie values, data keys, deployment key, client secret, "
                 "private JWK, assertions; raw / base64 / base64url); the built binary is started with all 32 subsets of {encryption key, client JWK, client secret, redis password, "
-                "password inside redis.uri} x {flag, WONDERWALL_* env, provider-specific env} x {openid, idporten, azure} and its output scanned; distinct_nontrivial = distinct log messages + binary starts")
+                "password inside redis.uri} x {flag, WONDERWALL_* env, provider-specific env} x {openid, idporten, azure} and its output scanned; "
+                "redis.uri with the password spelled: alphanumeric, each RFC 3986 sub-delimiter literally, literal ':' and '@', '@ : / ? # %' and the sub-delimiters "
+                "percent-encoded in upper and lower case, unnecessarily encoded letters / digits / marks, encoded space, non-ASCII and control characters, spellings "
+                "url.Parse rejects (bad escapes, literal '/ ? #', space, non-ASCII, brackets), empty password, password only, user only, no / empty userinfo, encoded "
+                "and sub-delimiter user names, IPv4 / IPv6 / zone / named hosts, path, query parameters, fragment, redis / rediss / unix / upper-case / no scheme, "
+                "every sequence of one and two (thorough: three) pieces of {a ! * ( ' $ : @ %2f %2F %41 %25}, each through flag and environment; the output "
+                "(raw and JSON-decoded) is scanned for the password as written, decoded, and for each distinctive half; "
+                "distinct_nontrivial = distinct log messages + binary starts + distinct (spelling, printed field)")
     ctx.assumptions += ["PARTIAL: the classification of log-site arguments (lib/log_classes.json) and 'provider error bodies contain no wonderwall secret' are trusted",
                         "third-party libraries' own logging is covered only by the dynamic scan"]
